@@ -297,7 +297,40 @@ def j6_just_filled(ctx):
         ctx.ob("J6", "peek:site", ok_paths >= 1, "panic site of peek() found on %d path(s)" % ok_paths, config=cfg)
 
 
-RULES = [("A", a_audit), ("J1", j1_peek_then_next), ("J2", j2_flags), ("J3", j3_config), ("J4", j4_merging), ("J6", j6_just_filled)]
+def j1b_preconditions(ctx):
+    """Cross-function J1: callees whose first action is `match self.next()? { Start(..) => .., _ => unreachable!() }`
+    (skip_next_tree) may only be called where peek() has just been matched to Start."""
+    for cfg, F in ctx.facts.items():
+        n = 0
+        for b, i, t in callers_of(F, "skip_next_tree"):
+            fn = sym.short(strip_generics(b.path))
+            try:
+                paths = ctx.paths(b, max_paths=60000)
+            except sym.PathBudget:
+                ctx.ob("J1", "%s:skip_next_tree:budget" % fn, False, "too many paths", config=cfg)
+                continue
+            seen = False
+            for p in paths:
+                ks = [k for k, e in enumerate(p) if e[0] == "call" and e[1] == i]
+                if not ks:
+                    continue
+                seen = True
+                k = ks[0]
+                def lp(t):
+                    # `let _ = self.peek()?; match self.last_peeked() {..}` (borrow-checker idiom): same slot
+                    return t[0] == "discr" and has_subterm(t[1], lambda s: call_is(s, "last_peeked"))
+                pk = [(j, x) for j, x in enumerate(p[:k]) if x[0] == "switch" and (is_peek_discr(x[2]) or (lp(x[2]) and any(y[0] == "call" and name_is(y[2], "peek") and "Deserializer" in y[2] for y in p[:j])))]
+                ok = bool(pk) and devar(F, pk[-1][1][3]) == "Start"
+                between = [sym.short(x[2]) for x in p[(pk[-1][0] if pk else 0):k] if x[0] == "call" and name_is(x[2], *CONSUMING) and "Deserializer" in x[2]]
+                ctx.ob("J1", "%s:skip_next_tree:peeked-Start" % fn, ok and not between,
+                       "skip_next_tree() panics unless the next event is a Start: the call must lie on paths where peek() was matched to Start and nothing was consumed since (peeked %s, consumed %s)" % (devar(F, pk[-1][1][3]) if pk else "nothing matched", between),
+                       loc=b.loc(t["s"]), config=cfg)
+            if seen:
+                n += 1
+        ctx.floor("J1", "callers of skip_next_tree", n, 2, config=cfg)
+
+
+RULES = [("A", a_audit), ("J1", j1_peek_then_next), ("J1b", j1b_preconditions), ("J2", j2_flags), ("J3", j3_config), ("J4", j4_merging), ("J6", j6_just_filled)]
 
 
 def THOROUGH_EXTRA(ctx):
